@@ -181,6 +181,14 @@ def docs_separator_rule(crate_macros, crate_rt, prop, rule="C15.R4"):
         b = esc[touched[0]]
         r.fail(prop, "merge-separator-incomplete parse_docs -> merge",
                "the blank-line rewrite runs once, and its replacement ends or begins with a newline: three consecutive newlines still leave an empty line inside the comment, which merge() takes for the end of the declaration", b.file(), b.line())
+    elif splits and not sanit and (any(bb.term(blk)["k"] == "switch" and "char" in (bb.term(blk).get("discr_ty") or "") and any(v == 10 for v, _ in bb.term(blk)["targets"])
+                                         for bb in bodies for blk in range(bb.n) if not bb.is_cleanup(blk)) or
+                                     any(st["k"] == "assign" and st["rv"]["k"] == "binop" and st["rv"]["op"] in ("Eq", "Ne") and
+                                         any((op_const(o) or {}).get("ty") == "char" and (op_const(o) or {}).get("int") == 10 for o in (st["rv"]["a"], st["rv"]["b"]))
+                                         for bb in bodies for blk in range(bb.n) if not bb.is_cleanup(blk) for st in bb.stmts(blk))):
+        # no `replace("\n\n", ..)`, but a pass over the characters that singles out the line feed: how it treats runs of
+        # them is a string algorithm this rule does not read
+        r.fail(prop, "anchor-missing blank-line elimination in parse_docs", "the doc text is rewritten character by character (a branch on the line feed); whether empty lines survive is not decided", b0.file(), b0.line())
     elif splits and not sanit:
         r.fail(prop, "merge-separator-unenforced parse_docs -> merge",
                "doc text reaches the declaration with its empty lines while merge() cuts declarations at blank lines: a blank line inside /** .. */ splits the declaration when a second type is merged into the file", b0.file(), b0.line())
